@@ -3039,14 +3039,14 @@ protected:
 		bool negative = (exponent < 0);
 		exponent = negative ? -exponent : exponent;
 		double result(1.0);
-		double base = 2.0;
+		double base = (negative ? 0.5 : 2.0); // 1.0 / 2^|exponent| is 0 once 2^|exponent| overflows, 0.5^|exponent| reaches the subnormals
 		for (;;) {
 			if (exponent % 2) result *= base;
 			exponent >>= 1;
 			if (exponent == 0) break;
 			base *= base;
 		}
-		return (negative ? (1.0 / result) : result);
+		return result;
 	}
 
 	template<BlockTripleOperator btop>
